@@ -52,7 +52,7 @@ type reqCase struct {
 }
 
 // process-wide registrations (RegisterCoreModule / RegisterNativeModule are global)
-var coreNames = []string{"cm1", "cm2", "cg", "cr", "cgr", "util", "a/b", "node:pre"}
+var coreNames = []string{"cm1", "cm2", "cg", "cr", "cgr", "util", "a/b", "node:pre", "pre"}
 var globNames = []string{"gn1", "cg", "cgr", "g/x"}
 var regPool = []string{"rn1", "cr", "cgr", "util", "r/y", "cm2"}
 
